@@ -80,7 +80,10 @@ def check_copy(ctx, path_in, path_out, task, strip_logs=False, strip_basins=Fals
                 # wrote the input are not copied (they are recomputed on demand)
                 from dclab.rtdc_dataset.fmt_hdf5 import feat_defect
                 chk = feat_defect.DEFECTIVE_FEATURES.get(f)
-                if chk is not None and chk(hi):
+                verdict = defective_model(hi, f)
+                if verdict is None:
+                    verdict = chk is not None and chk(hi)
+                if verdict:
                     skip.add(f)
                     defective.add(f)
                     ctx.count("skipped_defective_feature_in_input")
@@ -152,6 +155,47 @@ def check_copy(ctx, path_in, path_out, task, strip_logs=False, strip_basins=Fals
               message=f"{task}: output differs from input beyond the documented differences: "
                       f"{diffs[:2]}")
     return diffs
+
+
+def _vtuple(text):
+    out = []
+    for part in text.split("."):
+        num = ""
+        for ch in part:
+            if ch.isdigit():
+                num += ch
+            else:
+                break
+        if not num:
+            break
+        out.append(int(num))
+    return tuple(out)
+
+
+def defective_model(h5, feat):
+    """Documented rules for the two features whose defect depends on the dclab version that
+    wrote the data - the *last* entry of the version chain (None: no independent rule)."""
+    ver = h5.attrs.get("setup:software version", "")
+    if isinstance(ver, bytes):
+        ver = ver.decode("utf-8")
+    chain = [v.strip() for v in str(ver).split("|")]
+    last = chain[-1] if chain else ""
+    last_dclab = _vtuple(last.split()[1]) if last.startswith("dclab") and len(last.split()) > 1 \
+        else None
+    if feat == "volume":
+        if "logs" in h5 and "dclab_issue_141" in h5["logs"]:
+            return False
+        return bool(ver) and last_dclab is not None and last_dclab < (0, 37, 0)
+    if feat == "time":
+        ev = h5["events"]
+        if "frame" not in ev or h5.attrs.get("imaging:frame rate", 0) == 0:
+            return False
+        if ev["time"].dtype.char[-1] == "f":
+            return True
+        if "ShapeIn" not in str(ver):
+            return False
+        return last_dclab is not None and last_dclab < (0, 47, 6)
+    return None
 
 
 def check_summaries(ctx, events, task, witness=None):
